@@ -13,10 +13,7 @@ theorem evalCondW_cases (w : World) (toks : List Tok) :
   split
   · exact .inl rfl
   · split
-    · split
-      · exact .inl rfl
-      · exact .inr ⟨_, rfl⟩
-    · exact .inr ⟨_, rfl⟩
+    · exact .inl rfl
     · exact .inr ⟨_, rfl⟩
 
 theorem addAssoc_frame (s : PState) (f : String) (i : Nat) (p : String) :
